@@ -181,6 +181,9 @@ def load_property(prop, tier, seed, REPO):
         cases = L.confusion_cases(repo, tier, seed)
         outs = L.run_real(cases, root, workers=16)
         parts.append(battery(rep, "kind-confusion", cases, outs, L.judge_escape, None, "mpilot/program.py::Program.from_source+run"))
+        cases = L.v2_confusion_cases()
+        outs = L.run_real(cases, root, workers=16)
+        parts.append(battery(rep, "v2-confusion", cases, outs, L.judge_escape, None, "mpilot/program.py::Program.from_source+run"))
         cases = L.data_cases()
         outs = L.run_real(cases, root, workers=16)
         parts.append(battery(rep, "csv-content", cases, outs, L.judge_escape, None, "mpilot/program.py::Program.from_source+run"))
@@ -194,7 +197,8 @@ def load_property(prop, tier, seed, REPO):
         cases = L.cli_cases(repo)
         outs = L.run_real(cases, root, workers=8)
         parts.append(battery(rep, "cli", cases, outs, L.judge_cli, {"cli", "raises_only"}, "mpilot/cli/mpilot.py::main"))
-        rule = ("every command x parameter (incl. Metadata) x a 21-value alphabet of every kind (thorough: all; quick: 9 sampled per parameter), 17 CSV contents (empty, "
+        rule = ("every command x parameter (incl. Metadata) x a 28-value alphabet of every kind (thorough: all; quick: 9 sampled per parameter), five EEMS 2.0 forms without a "
+                "result name x the same alphabet where a name is expected, 17 CSV contents (empty, "
                 "header only, ragged, non-numeric, empty cells, missing column, CRLF, BOM, nan/inf, overflow) x 3 models, single-token corruptions of valid programs loaded "
                 "and run, and 11 command-line runs (exit status, problem/solution text on stderr, no traceback); only SyntaxError / MPilotError may escape")
         rep.explanation = (
